@@ -143,10 +143,25 @@ def _postmap_of(ctx, prog, b, inner, name, bi):
             res['adaptors'] = ad
             X = ('deref', ('param', 2, cb.name_of(2)))
             ws = partial_writes(cb, lambda lhs, i, j: lhs['local'] == 2 and len(lhs['proj']) == 2 and lhs['proj'][0]['k'] == 'deref')
-            res['writes'] = [(i, j, selfify(it), selfify(v)) for i, j, it, v in ws]
+            res['writes'] = [(i, j, selfify(util.subst_closure(cb, it, list(caps), [])), selfify(util.subst_closure(cb, v, list(caps), []))) for i, j, it, v in ws]
             res['X'] = algebra.canon(X)
             res['closure'] = cb
             res['where'] = cb.where(0)
+            if not ws:
+                # the closure only hands the element to a helper of the wrapper, fn(&self, &mut Joints): the helper is the post-map
+                hcalls = [(hi, ht) for hi, ht in cb.calls() if ht['callee'].get('local') and ht['callee'].get('resolved') in prog.bodies]
+                if len(hcalls) == 1 and len(hcalls[0][1]['args']) == 2:
+                    hi, ht = hcalls[0]
+                    hb = prog.bodies[ht['callee']['resolved']]
+                    recv = selfify(util.subst_closure(cb, strip(cb.op_term(ht['args'][0], (hi, None))), list(caps), []))
+                    elem_ = strip(cb.op_term(ht['args'][1], (hi, None)))
+                    if hb.kind != 'Closure' and hb.arg_count == 2 and hb.local_ty(2).startswith('&mut') and '[f64; 6]' in hb.local_ty(2) and util.is_param(recv, 1) and \
+                            util.is_param(elem_, 2):
+                        ctx.fn(hb)
+                        hws = partial_writes(hb, lambda lhs, i, j: lhs['local'] == 2 and len(lhs['proj']) == 2 and lhs['proj'][0]['k'] == 'deref')
+                        res['writes'] = [(i, j, algebra.canon(it), algebra.canon(v)) for i, j, it, v in hws]
+                        res['X'] = algebra.canon(('deref', ('param', 2, hb.name_of(2))))
+                        res['where'] = hb.where(0)
     # form B: for x in solutions.iter_mut() { x[c] += .. }
     if not res['writes']:
         def pred(lhs, i, j):
@@ -158,7 +173,7 @@ def _postmap_of(ctx, prog, b, inner, name, bi):
                     while isinstance(base, tuple) and base[0] == 'call' and cname(base[1]) in ('DerefMut::deref_mut', 'Deref::deref'):
                         base = strip(base[2])
                     if base == inner:
-                        res['all_elements'] = ad in (['iter_mut'], ['iter_mut', 'into_iter'])
+                        res['all_elements'] = ad in (['iter_mut'], ['iter_mut', 'into_iter'], ['into_iter'])      # `for x in &mut solutions` is ['into_iter']
                         res['adaptors'] = ad
                         res['X'] = algebra.canon(strip(b.term_local(lhs['local'], (i, j))))
                         return True
@@ -214,7 +229,7 @@ def _postmap_of(ctx, prog, b, inner, name, bi):
                     if len(crv) == 1 and isinstance(crv[0], tuple) and crv[0][0] in ('param', 'mparam') and crv[0][1] == 2:
                         res['all_elements'] = all(a == 'into_iter' for a in ad) and bool(ad)
                         res['adaptors'] = ad + ['map']
-                        res['writes'] = [(i, j, selfify(it), selfify(v)) for i, j, it, v in ws]
+                        res['writes'] = [(i, j, selfify(util.subst_closure(cb, it, list(caps), [])), selfify(util.subst_closure(cb, v, list(caps), []))) for i, j, it, v in ws]
                         res['X'] = algebra.canon(('param', 2, cb.name_of(2)))
                         res['closure'] = cb
                         res['where'] = cb.where(0)
